@@ -15,6 +15,8 @@ for d in sorted(glob.glob(os.path.join(V, "seeded", "*"))):
     for x in r.get("also_caught_by", []):
         caught.append(x)
     summ = " ".join(m.get("summary", "").split())[:230]
-    rows.append("| %s | %s | %s | %s |" % (os.path.basename(d), summ.replace("|", "/"), " ".join(m.get("needs_to_manifest", "").split())[:160].replace("|", "/"), "<br>".join(caught) if caught else "**missed** (round 1)" ))
-print("| seed | change | needs | caught by |\n|---|---|---|---|")
+    if r.get("note"):
+        caught.append("note: " + r["note"][:300])
+    rows.append("| %s | %s | %s | %s | %s |" % (os.path.basename(d), summ.replace("|", "/"), " ".join(m.get("needs_to_manifest", "").split())[:160].replace("|", "/"), r.get("first_run", "?"), "<br>".join(caught) if caught else "not reported"))
+print("| seed | change | needs | first run | final: caught by |\n|---|---|---|---|---|")
 print("\n".join(rows))
